@@ -26,11 +26,11 @@ PID = "C19"
 THEOREMS = [
     "C19_generated_schema_probes", "C19_generated_writer_code", "C19_generated_facts",
     "C19_descriptor_carried", "C19_doc_detected_iff_fields", "C19_field_roundtrip",
-    "C19_never_altered", "C19_refuses_unmapped_type", "C19_refuses_out_of_range_integer",
-    "C19_refuses_second_descriptor", "C19_refusal_adds_no_record", "C19_accepts_representable",
+    "C19_never_altered", "C19_refuses_unmapped_type", "C19_refuses_out_of_range_integer", "C19_integer_ranges",
+    "C19_refuses_second_descriptor", "C19_accepts_representable",
     "C19_roundtrip", "C19_roundtrip_with_refusals_partial",
-    "C19_refused_then_accepted_refuted", "C19_initial_flush_refuted", "C19_timestamp_out_of_python_range_refuted",
-    "C19_digest_unwritable_refuted", "C19_reader_guard", "C19_export_idempotent",
+    "C19_refused_then_accepted_refuted", "C19_initial_flush_harmless", "C19_timestamp_out_of_python_range_refuted",
+    "C19_digest_unwritable_refuted", "C19_hyp_satisfiable", "C19_reader_guard", "C19_export_idempotent",
 ]
 UTC = pydt.timezone.utc
 EPOCH = pydt.datetime(1970, 1, 1, tzinfo=UTC)
@@ -395,8 +395,6 @@ def classify(case, res):
     ops = case["ops"]
     outs = res["outs"]
     first_w = next((i for i, op in enumerate(ops) if op[0] == "w"), None)
-    if placeholder_from(case) is not None:
-        cls.add("write-after-flush-without-schema")
     dirty = False
     for i, op in enumerate(ops):
         if op[0] == "f":
@@ -419,20 +417,6 @@ def classify(case, res):
     return cls
 
 
-def placeholder_from(case):
-    """index of the first write that meets the field-less placeholder writer flush() installs when no schema writer
-    exists yet (flush before the first write, or after the first record's schema was refused); None if there is none"""
-    ops = case["ops"]
-    first_w = next((i for i, op in enumerate(ops) if op[0] == "w"), None)
-    if first_w is None:
-        return None
-    established = all(t in SPEC_MAP for t, _ in case["descs"][ops[first_w][1]][1])
-    for j, op in enumerate(ops):
-        if op[0] == "f" and (j < first_w or not established):
-            return next((i for i in range(j + 1, len(ops)) if ops[i][0] == "w"), None)
-    return None
-
-
 def oracle(case, res):
     """-> list of (kind, text, classes) : kind 'violation' | 'finding:<cls>' ; what the PROPERTY demands"""
     problems = []
@@ -451,8 +435,6 @@ def oracle(case, res):
     name0, fields0 = case["descs"][d0]
     fields0 = [tuple(f) for f in fields0]
     mapped = all(t in SPEC_MAP for t, _ in fields0)
-    ph = placeholder_from(case)
-    initial_flush = ph is not None
     expected = []
     for i, op in enumerate(ops):
         if op[0] != "w":
@@ -462,32 +444,32 @@ def oracle(case, res):
         st, idx, _ = record_status([tuple(f) for f in case["descs"][op[1]][1]], res["written"][i])
         same = case["descs"][op[1]] == case["descs"][d0]
         if outs[i] == "ok":
-            if not same and not initial_flush:
+            if not same:
                 problems.append(("violation", "a record of a second type (%s) was accepted into the file of %s" % (
                     case["descs"][op[1]][0], name0)))
             if not mapped_desc(case["descs"][op[1]]):
-                problems.append(("finding:write-after-flush-without-schema" if initial_flush and i >= ph else "violation",
-                                 "a record with a field of an unmapped type was accepted"))
+                problems.append(("violation", "a record with a field of an unmapped type was accepted"))
             expected.append([normalise(o) for o in res["written"][i]])
         else:
-            if same and mapped and st == "must" and not initial_flush:
+            if same and mapped and st == "must":
                 problems.append(("violation", "a representable record was refused (%s): %r" % (outs[i], res["written"][i])))
             if same and st == "digest" and all(spec_field_status(t, o) in ("must", "digest") for (t, n), o in zip(
                     all_fields(fields0), res["written"][i])):
                 problems.append(("finding:digest-field", "a record with a digest field is refused (%s)" % outs[i]))
-            if initial_flush and i >= ph and same and mapped and st == "must":
-                problems.append(("finding:write-after-flush-without-schema", "a write after flush() is refused (%s)" % outs[i]))
     fl = res["flow"]
     got_ok = ("open_error" not in fl and fl["end"] == "end" and fl["recs"] == expected
               and (not expected or (fl["name"] == name0 and fl["fields"] == fields0)))
-    if mapped and not initial_flush and "open_error" not in fl and (fl["name"] != name0 or fl["fields"] != fields0):
+    if mapped and "open_error" not in fl and (fl["name"] != name0 or fl["fields"] != fields0):
         problems.append(("violation", "the descriptor is not carried: wrote %s %r, read %s %r" % (name0, fields0, fl["name"], fl["fields"])))
         return problems, cls
     if not got_ok:
         what = "read back %s, expected %d record(s) %s" % (
             fl.get("open_error") or ("%d record(s)%s %r" % (len(fl["recs"]), "" if fl["end"] == "end" else " then " + fl["end"], fl["recs"][:3])),
             len(expected), repr(expected[:3])[:400])
-        for c in ("write-after-flush-without-schema", "accepted-after-partial-refusal", "instant-outside-year-1-9999"):
+        order = ["accepted-after-partial-refusal", "instant-outside-year-1-9999"]
+        if "OverflowError" in fl.get("end", ""):
+            order.reverse()
+        for c in order:
             if c in cls:
                 problems.append(("finding:" + c, what))
                 break
@@ -498,7 +480,7 @@ def oracle(case, res):
         rw = res["raw"]
         if "open_error" in rw or rw["end"] != "end" or rw["recs"] != expected:
             problems.append(("violation", "fastavro.reader sees other data than AvroReader: %r" % (rw if "open_error" in rw else rw["recs"][:3],)))
-        elif not initial_flush and (mapped or expected) and rw["schema"].get("doc") != json.dumps([name0, [list(f) for f in fields0]]):
+        elif (mapped or expected) and rw["schema"].get("doc") != json.dumps([name0, [list(f) for f in fields0]]):
             problems.append(("violation", "schema doc is not the descriptor: %r" % rw["schema"].get("doc")))
     return problems, cls
 
@@ -712,6 +694,13 @@ def boundary_cases():
     # no user fields (descriptor rebuilt from namespace/name), names without "/" and with several
     for nm in ("x", "test/e", "deep/er/name"):
         out.append(dict(descs=[[nm, []]], ops=[["w", 0, reserved_specs(rnd)], ["w", 0, reserved_specs(rnd)]]))
+    # flush() before the first write and after a refused schema (repaired defect 73fee0f): nothing may change
+    d = ["test/a", [["string", "a"], ["uint32", "b"]]]
+    out.append(dict(descs=[d], ops=[["f"], ["w", 0, [in_value("one"), in_value(1)] + reserved_specs(rnd)], ["f"],
+                                    ["w", 0, [in_value("two"), in_value(2)] + reserved_specs(rnd)]]))
+    d = ["test/um", [["string", "s"], ["path", "u"]]]
+    out.append(dict(descs=[d], ops=[["w", 0, [in_value("x"), in_value("/tmp/x")] + reserved_specs(rnd)], ["f"],
+                                    ["w", 0, [in_value("x"), in_value("/tmp/x")] + reserved_specs(rnd)], ["f"]]))
     # nothing written
     out.append(dict(descs=[["test/a", [["string", "s"]]]], ops=[]))
     out.append(dict(descs=[["test/a", [["string", "s"]]]], ops=[["f"]]))
@@ -738,8 +727,6 @@ def witness_cases():
     w = {}
     w["accepted-after-partial-refusal"] = dict(descs=[d], ops=[["w", 0, [in_value("two"), in_value(2**31)] + res],
                                                               ["w", 0, [in_value("\x02\x02\x02\x02"), in_value(7)] + res]])
-    w["write-after-flush-without-schema"] = dict(descs=[d], ops=[["f"], ["w", 0, [in_value("one"), in_value(1)] + res],
-                                                         ["w", 0, [in_value("two"), in_value(2)] + res]])
     w["instant-outside-year-1-9999"] = dict(descs=[["test/t", [["string", "s"], ["datetime", "ts"]]]], ops=[
         ["w", 0, [in_value("ok"), in_value(dt_values()[0])] + res],
         ["w", 0, [in_value("early"), in_value(dt_out_of_range()[0])] + res],
@@ -1036,7 +1023,7 @@ def foreign_sweep(ctx, rnd, reported, want_terms=True):
         msg = foreign_oracle(schema, recs, flow)
         if msg and not reported[0]:
             reported[0] = True
-            ctx.violation("C19 reader side: %s" % msg, dict(kind="foreign", schema=schema, recs=_j([{k: (in_value(v) if not isinstance(v, pydt.datetime) else dt_spec(v)) for k, v in r.items()} for r in recs]),
+            ctx.violation("C19 reader side: %s" % msg, dict(kind="foreign", schema=schema, recs=_j([{k: in_value(v) for k, v in r.items()} for r in recs]),
                                                            flow=_j(flow), problem=msg))
         if want_terms:
             try:
@@ -1096,6 +1083,19 @@ def run(ctx):
         "that fastavro's size-triggered block dump (16000 bytes) is exercised by one dedicated session only; it only "
         "moves records from the buffer to the file earlier",
     ]
+    ctx.notes += [
+        "decisions: a float beyond single range (1e39) is stored as +inf and 5e-324 as 0.0 -- the IEEE round-to-nearest "
+        "results of the conversion the statement allows ('floats to single precision'); NaN stays NaN (one value); "
+        "-0.0 keeps its sign; 16777217.0 reads back 16777216.0",
+        "decisions: text with surrogate code points (surrogate-escaped bytes, lone surrogates) is refused with "
+        "UnicodeEncodeError, never altered -- the statement allows refusal; a refusal happens at write() (fastavro encodes "
+        "eagerly into its block buffer), not at flush()/close(); after a refusal the file stays readable with the earlier "
+        "records UNLESS another record is accepted before the next flush (known finding accepted-after-partial-refusal)",
+        "a field-less descriptor's doc text does not satisfy the detection condition; the reader rebuilds it from "
+        "namespace/name (proved equal for names without '.', not starting/ending with '/')",
+        "out of scope, observed: AvroReader cannot read a foreign file whose schema has a non-reserved field starting "
+        "with '_' (the fallback descriptor skips it but the value is still passed to the record class: TypeError)",
+    ]
     if not ok:
         return
     rnd = random.Random(ctx.seed)
@@ -1139,5 +1139,14 @@ def replay(obj):
         import shutil
         shutil.rmtree(work, ignore_errors=True)
         return 1 if bad else 0
+    if kind == "foreign":
+        work = tempfile.mkdtemp(prefix="c19replay.", dir=str(core.WORK))
+        recs = [{k: mk_value(v) for k, v in r.items()} for r in obj["recs"]]
+        flow, raw = run_foreign(work, obj["schema"], recs, 0)
+        msg = foreign_oracle(obj["schema"], recs, flow)
+        print("replay: AvroReader gives %s -> %s" % (flow, msg or "holds"))
+        import shutil
+        shutil.rmtree(work, ignore_errors=True)
+        return 1 if msg else 0
     print("replay of kind %s: re-run ./check C19" % kind)
     return 2
